@@ -79,7 +79,7 @@ func CleanDomain(addr string) (string, error) {
 		return addr, err
 	}
 
-	uDomain, err := idna.ToUnicode(dns.LowerASCII(domain))
+	uDomain, err := idna.ToUnicode(dns.LowerALabels(domain))
 	if err != nil {
 		return addr, err
 	}
